@@ -151,6 +151,11 @@ def reg_state(reg):
     return groups
 
 
+def reg_enthalpy(reg):
+    """sum_i m_i T_i over interior + flowing-bypass nodes of a region (used by the core balance of C02)"""
+    return sum(float(np.dot(m, t)) for (m, t, cp) in reg_state(reg))
+
+
 def reg_tallies(reg):
     e = float(reg.ebal['power']) + float(np.sum(reg.ebal['duct']))
     if 'duct_byp_in' in reg.ebal and reg.is_rodded and np.sum(getattr(reg, 'byp_flow_rate', 0)) > 0:
